@@ -286,6 +286,110 @@ func registerRound2() {
 		Quick: 2, Thor: 3,
 	})
 
+	// ---------------------------------------------------------------- fourth round
+	// one ResponseWriter used by several goroutines of its handler, with a debug-level logger
+	regSpec(&Spec{
+		Name: "handler-fans-out-over-one-response-writer", Props: []string{"C15", "C05", "C04"},
+		Srv:   SrvOpts{Debug: true},
+		Conns: []ConnSpec{{Ops: []string{"search", "bind"}, H: map[int]*HSpec{1: {Fan: 2, Frames: []int{10, 10, 5000, 10}}}, Expect: 6}},
+		Quick: 2, Thor: 3,
+	})
+	// TLS connections whose client goes away without a close_notify (closing such a connection returns an
+	// error): still closed, reported, and all of it before Stop returns
+	regSpec(&Spec{
+		Name: "stop-after-tls-clients-reset", Props: []string{"C12", "C08", "C09"},
+		Srv: SrvOpts{TLS: getPKI().ServerCfg, OnCloseYields: 1},
+		Conns: []ConnSpec{
+			{TLS: "listener", Ops: []string{"bind"}, Expect: 1, End: "reset"},
+			{TLS: "listener", Ops: []string{"bind"}, Expect: 1, End: "stay"},
+			{TLS: "listener", Ops: []string{"search"}, Expect: 1},
+		},
+		ClientsIdle: true, Quick: 2, Thor: 3,
+	})
+	// Unbind on several connections of one server: the unbind handler runs once for each
+	regSpec(&Spec{
+		Name: "unbind-on-three-connections", Props: []string{"C10", "C08"},
+		Conns: []ConnSpec{
+			{Ops: []string{"bind", "unbind"}, Read: "all"},
+			{Ops: []string{"unbind", "search"}, Read: "all", After: 1},
+			{Ops: []string{"search", "unbind"}, Read: "all"},
+		},
+		Quick: 2, Thor: 3,
+	})
+	// the unbind route is replaced while a connection is open: the handler registered when the Unbind is read runs
+	regSpec(&Spec{
+		Name: "unbind-route-replaced-while-connected", Props: []string{"C10", "C03"},
+		Conns:          []ConnSpec{{Ops: []string{"bind", "unbind"}, Segs: []int{1, 1}, Sync: true, Read: "all", SendNote: "unbind-route-replaced"}},
+		ReplacedUnbind: true, NoRaces: true,
+		Extra: func(w *World) {
+			vrt.GoNamed("reconfigure", func() {
+				vrt.WaitUntil("first-served", func() bool { return w.Finished >= 1 })
+				w.ReplaceUnbindRoute()
+				vrt.Atomic(func() { w.Notes["unbind-route-replaced"]++ })
+			})
+		},
+		Quick: 2, Thor: 3,
+	})
+	// a search handler that writes an entry and then waits until the client has seen it - on a plain connection,
+	// on a TLS listener and inside a StartTLS tunnel
+	for _, tr := range []string{"plain", "tls-listener", "starttls"} {
+		c := ConnSpec{Ops: []string{"search"}, H: map[int]*HSpec{1: {Frames: []int{10}, WaitMid: "c1-saw-the-entry"}}, AckAt: 1, AckNote: "c1-saw-the-entry", Expect: 2}
+		srv := SrvOpts{}
+		var chk func(x *vrt.Sched, w *World) []Finding
+		switch tr {
+		case "tls-listener":
+			c.TLS = "listener"
+			srv.TLS = getPKI().ServerCfg
+		case "starttls":
+			c.Ops = []string{"starttls", "search"}
+			c.H = map[int]*HSpec{2: {Frames: []int{10}, WaitMid: "c1-saw-the-entry"}}
+			c.AckAt, c.Expect = 2, 3
+			chk = startTLSCheck(1)
+		}
+		regSpec(&Spec{
+			Name: "entry-is-delivered-while-its-handler-goes-on-" + tr, Props: []string{"C13", "C05", "C04"}, Srv: srv,
+			Conns: []ConnSpec{c}, Check: chk, Quick: 2, Thor: 3,
+		})
+	}
+	// a connection whose client has gone is torn down while another connection still waits for its handler:
+	// the second teardown must not wait for the first
+	regSpec(&Spec{
+		Name: "teardown-does-not-wait-for-another-connection", Props: []string{"C08", "C06", "C07"},
+		Conns: []ConnSpec{
+			{Ops: []string{"search"}, H: map[int]*HSpec{1: {WaitNote: "onclose-2"}}, Read: "none", Name: "faulty"},
+			{Ops: []string{"bind"}, Expect: 1, Name: "bystander", WaitNote: "faulty-done"},
+		},
+		Quick: 2, Thor: 3,
+	})
+	// a handler of a connection that has been told to end (Unbind) writes late, while a newer connection is
+	// being served: its frame goes to its own client
+	regSpec(&Spec{
+		Name: "late-write-after-unbind-vs-newer-connection", Props: []string{"C05", "C08", "C10"},
+		Conns: []ConnSpec{
+			{Ops: []string{"search", "unbind"}, H: map[int]*HSpec{1: {WaitNote: "fresh-answered", Frames: []int{10}}}, Read: "all", Name: "faulty", SendNote: ""},
+			{Ops: []string{"bind", "search"}, Segs: []int{1, 1}, AckAt: 1, AckNote: "fresh-answered", Expect: 2, Name: "fresh", WaitNote: "unbind-started", EndNote: "faulty-done"},
+		},
+		Quick: 2, Thor: 3,
+	})
+	// Stop with a client that pipelines and does not read, on a server with a write timeout
+	regSpec(&Spec{
+		Name: "stop-with-pipelining-client-that-does-not-read", Props: []string{"C11", "C08"},
+		Srv:      SrvOpts{WriteTimeout: secs(5)},
+		Conns:    []ConnSpec{{Ops: []string{"search", "bind", "bind", "bind"}, H: map[int]*HSpec{1: {Frames: []int{70000}}}, Read: "none", RecvBuf: 1024, End: "stay"}},
+		StopWhen: "note:started-1", Extra: watchStarted(1),
+		ClientsIdle: true, Quick: 2, Thor: 3,
+	})
+	// request objects kept beyond their connection
+	regSpec(&Spec{
+		Name: "requests-kept-after-their-connection-closed", Props: []string{"C09"},
+		Conns: []ConnSpec{
+			{Ops: []string{"bind", "search"}, Expect: 2},
+			{Ops: []string{"bind"}, Expect: 1, After: 1},
+			{Ops: []string{"search"}, Expect: 1, After: 2},
+		},
+		Quick: 2, Thor: 3,
+	})
+
 	// ---------------------------------------------------------------- C11
 	// Stop while a StartTLS handler waits for a ClientHello that never comes
 	regSpec(&Spec{
